@@ -61,6 +61,7 @@ const (
 	intDust    // blocked
 	intOrbiter // the orbiter account itself
 	intInvalid
+	intOrbiterUpper // the orbiter account in its upper-case spelling
 	nIntKinds
 )
 
@@ -79,6 +80,7 @@ type Scenario struct {
 	hypSynthetic                                 bool
 	receiver                                     string
 	amountNaN                                    bool
+	amountStr                                    string // a non-canonical spelling of the amount (s.A is its value)
 	A                                            math.Int
 	denom                                        string
 	memo                                         string
@@ -135,7 +137,13 @@ func drawScenario() *Scenario {
 	s.denomKind = verif.Choose("denom-kind", verif.Bound("denomKinds"))
 	// (kind 4: ANOTHER Noble-native denomination returning home — the account may hold uusdc besides it)
 	s.denom = []string{voucherOnSender, "uatom", "transfer/channel-7/transfer/channel-3/uatom", "transfer/channel-8/uusdc", "transfer/channel-7/ueure"}[s.denomKind]
-	if verif.Bound("amountKinds") > 1 && verif.Bool("amount-not-a-number") {
+	if verif.Bound("amountSpellings") > 0 && verif.Bool("amount-in-another-spelling") {
+		// spellings ICS-20 accepts besides the canonical decimal (cosmossdk.io/math parses with base 0): octal, hexadecimal,
+		// digit separators — the value is what ICS-20 credits
+		k := verif.Choose("amount-spelling", 3)
+		s.amountStr = []string{"0100", "0x40", "1_00"}[k]
+		s.A = math.NewInt([]int64{64, 64, 100}[k])
+	} else if verif.Bound("amountKinds") > 1 && verif.Bool("amount-not-a-number") {
 		s.amountNaN = true
 	} else {
 		s.A = verif.BigInt("A")
@@ -185,7 +193,7 @@ func drawScenario() *Scenario {
 		must(f.SetAttributes(&fwdtypes.HypAttributes{TokenId: make([]byte, 32), DestinationDomain: s.domain, Recipient: make([]byte, 32), GasLimit: math.ZeroInt(), MaxFee: sdk.Coin{Denom: "uusdc", Amount: maxFee}}))
 	default:
 		s.intKind = verif.Choose("internal-recipient", verif.Bound("intKinds"))
-		rcpt := []string{user1.String(), feeR1.String(), modAddr(core.DustCollectorName).String(), core.ModuleAddress.String(), "noble1nope"}[s.intKind]
+		rcpt := []string{user1.String(), feeR1.String(), modAddr(core.DustCollectorName).String(), core.ModuleAddress.String(), "noble1nope", orbiterUpper()}[s.intKind]
 		f = &core.Forwarding{ProtocolId: core.PROTOCOL_INTERNAL, PassthroughPayload: pt}
 		must(f.SetAttributes(&fwdtypes.InternalAttributes{Recipient: rcpt}))
 	}
@@ -290,7 +298,9 @@ func (s *Scenario) apply(w *World, withPriors bool) {
 
 func (s *Scenario) data() transfertypes.FungibleTokenPacketData {
 	d := transfertypes.FungibleTokenPacketData{Denom: s.denom, Sender: "sender-on-counterparty", Receiver: s.receiver, Memo: s.memo}
-	if s.amountNaN {
+	if s.amountStr != "" {
+		d.Amount = s.amountStr
+	} else if s.amountNaN {
 		d.Amount = "12x"
 	} else {
 		d.Amount = s.A.String()
